@@ -24,8 +24,22 @@ THEOREMS = [
     "PorepyVerif.C33.line_tess_colsum",
     "PorepyVerif.C33.match_avg_rows_one",
     "PorepyVerif.C33.match_int_cols_one",
+    "PorepyVerif.C33.common_area_nonneg",
+    "PorepyVerif.C33.tri_tess_pos",
+    "PorepyVerif.C33.tri_tess_indices",
+    "PorepyVerif.C33.tri_tess_entry",
+    "PorepyVerif.C33.tri_tess_rowsum_eq",
+    "PorepyVerif.C33.tri_tess_colsum_eq",
+    "PorepyVerif.C33.clip_area2_nonneg",
+    "PorepyVerif.C33.common_area_eq_clip",
+    "PorepyVerif.C33.clip_split",
+    "PorepyVerif.C33.bsp_overlaps_sum",
+    "PorepyVerif.C33.bsp_overlaps_sum_all",
+    "PorepyVerif.C33.match2d_avg_rows_one_of_rowsum",
+    "PorepyVerif.C33.match2d_int_cols_one_of_colsum",
 ]
 LEAN_MODULES = ["PorepyVerif.C33.Props"]
+LEAN_DIRS = ["C44"]  # the 2-D model reuses the clipping functions and the convexity theorem of the C44 model
 AUDIT = "PorepyVerif/C33/Audit.lean"
 DRIVER = "PorepyVerif/C33/Driver.lean"
 N = {"quick": 150, "thorough": 2500}
@@ -37,7 +51,7 @@ RULE = ("kinds: 1d (60%): two node sets on a common line, embedded in 3-D along 
         "(different end points / arbitrary intervals) for the correspondence only. "
         "tri2d (20%): two pp.StructuredTriangleGrid of the same rectangle (1-5 x 1-5 squares each, equal resolutions and "
         "unperturbed grids included, interior nodes moved by up to 0.2 h), optionally rotated into a rational plane of 3-D: "
-        "triangulations + match_2d. surf (10%): surface_tessellations on two or three rectangle partitions (tensor node sets) or on the "
+        "triangulations + match_2d, both also computed by the Lean model (correspondence). surf (10%): surface_tessellations on two or three rectangle partitions (tensor node sets) or on the "
         "triangle sets or on one or two random convex polygons per set (pairwise overlaps only), with and without return_simplexes; every piece "
         "must lie in the cells it is mapped to and the pieces of a pair of cells must add up to the exact overlap. mortar (10%): two Cartesian 2-D grids with one horizontal fracture, "
         "different resolutions and independent monotone piecewise-linear x-maps: match_grids_along_1d_mortar. "
@@ -47,8 +61,12 @@ TRUSTED = [
     "(true by construction of the inputs); only its collinear branch (max/min test, argsort of the four end points, middle two, 'end to end' test |difference| < 1e-8 -> one point) is modelled, "
     "in the arc-length parameter of the coordinate start[mask][0] the code sorts by",
     "modelled, not verified: Grid.cell_nodes / compute_geometry (cell_volumes = distance of the two nodes), scipy coo->csr summation of duplicates",
-    "2-D (shapely: triangulations, surface_tessellations, match_2d) and match_grids_along_1d_mortar are NOT modelled in Lean: oracle only "
+    "2-D: triangulations / match_2d are modelled (exact rationals; the code rounds in binary64: weights compared with 1e-12 area, reported pairs "
+    "compared above 1e-10 area because a numerically zero overlap may or may not pass `area > 0`); modelled, not verified: match_2d's projection to "
+    "the plane (the model receives the projected coordinates recorded from the real call) and Grid.cell_volumes of the planar grids (model: shoelace area)",
+    "surface_tessellations (shapely) and match_grids_along_1d_mortar are NOT modelled in Lean: oracle only "
     "(exact Sutherland-Hodgman clipping over Fractions / interval intersection as independent reference)",
+    "the C44 model's clipping functions (shClip2, halfPlanes, area2) and its theorem sh2_convex1 are imported (LEAN_DIRS = C44)",
     "binary64 rounding of sqrt and of the division by cell volumes (comparison: exact for dyadic inputs' triples, 1e-12 otherwise)",
 ]
 EXPLANATION = ("FULL in 1-D: model = double loop of line_tessellation over the collinear branch of segments_3d + the three scaling branches of "
@@ -56,8 +74,16 @@ EXPLANATION = ("FULL in 1-D: model = double loop of line_tessellation over the c
                "measures, averaged rows / integrated columns sum to one, for strictly increasing node lists with common end points whose cells are at least "
                "the tolerance of segments_3d long and whose nodes coincide or are at least that tolerance apart (decidable hypotheses gapInc / sepNodes; a "
                "counterexample without them is in Props.lean: shorter overlaps are reported with weight 0). "
-               "CORE in 2-D and for the mortar matching: oracle with the same statement on the real code; three open findings there "
-               "(known_findings.d/C33.json, fixes/C33-*.diff).")
+               "2-D (deepening): the model mirrors _convex_polygons_common_area (Sutherland-Hodgman clipping + shoelace; clipping functions of the C44 model), "
+               "the double loop of triangulations (bounding-box filter, area > 0) and the scaling of match_2d, and is run on the very coordinates the code "
+               "sees (plane coordinates for triangulations, the recorded projected coordinates inside match_2d). Proved for all inputs: overlaps positive / "
+               "non-negative, dense entries = commonArea, clipping a convex ccw polygon keeps the shoelace area non-negative, SPLIT (the two sides of a line "
+               "add up, for any vertex list) and hence: the overlaps of any polygon with the cells of a binary space partition sum to its area; "
+               "match_2d rows/columns sum to one given the row/column sums. NOT proved: that the shoelace area of the clipped polygon only depends on the "
+               "point set (order / redundancy of half-planes, symmetry, soundness of the bounding-box filter), which is what separates the BSP theorem "
+               "from 'two arbitrary triangulations'; that gap is covered by the oracle (sums = measures, exact reference clipping) on the real code. "
+               "surface_tessellations and match_grids_along_1d_mortar: oracle only. The three defects found here earlier are repaired in /repo "
+               "(954bf8e45, 8582bd2b5, 107a27baf); their cases are replayed from the corpus.")
 ASSUMPTIONS = [
     "1-D cells are longer than the tolerance 1e-8 of segments_3d in every non-constant coordinate and coordinates are moderate (<= 2^8), "
     "so that the float collinearity tests of segments_3d succeed for collinear inputs",
@@ -436,7 +462,62 @@ def _exact_overlap_matrix(polys_a, polys_b):
 
 
 # ------------------------------------------------------------------------------------------------ impl_run / model
+_tmemo = {}
+
+
+def _run_tri(case):
+    """real code on a tri2d case: triangulations on the plane coordinates, match_2d on the (possibly rotated) grids with the
+    arguments of its inner triangulations call recorded (these projected coordinates are what the model is run on)."""
+    key = json.dumps(case, sort_keys=True)
+    if key in _tmemo:
+        return _tmemo[key]
+    import porepy as pp
+    rot = _ROTS[case.get("rot", 0)]
+    (ga, fa), (gb, fb) = _tri_grid(case, 0, rot), _tri_grid(case, 1, rot)
+    ta, tb = _tris(ga), _tris(gb)
+    area = float(case["Lx"] * case["Ly"])
+    out = {"flat": (fa, fb, ta, tb), "area": area}
+    try:
+        out["triples"] = [[int(i), int(j), float(w)] for i, j, w in pp.intersections.triangulations(fa, fb, ta, tb)]
+    except Exception as e:
+        out["triples"] = err_kind(e)
+    captured = []
+    orig = pp.intersections.triangulations
+
+    def spy(p1, p2, t1, t2):
+        captured.append((np.array(p1), np.array(p2), np.array(t1), np.array(t2)))
+        return orig(p1, p2, t1, t2)
+
+    pp.intersections.triangulations = spy
+    try:
+        for name, sc, tol in (("avg", "averaged", 1e-6), ("int", "integrated", 1e-6), ("none", None, 1e-6 * area)):
+            try:
+                out[name] = pp.match_grids.match_2d(ga, gb, tol, sc).toarray().tolist()
+            except Exception as e:
+                out[name] = err_kind(e)
+    finally:
+        pp.intersections.triangulations = orig
+    out["proj"] = captured[0] if captured else None
+    if len(_tmemo) > 2000:
+        _tmemo.clear()
+    _tmemo[key] = out
+    return out
+
+
+def _tri_op(p1, p2, t1, t2, tol, want):
+    return {"op": "tri2d", "want": want, "p1": [[frac(x), frac(y)] for x, y in zip(p1[0], p1[1])], "t1": [[int(v) for v in t1[:, k]] for k in range(t1.shape[1])],
+            "p2": [[frac(x), frac(y)] for x, y in zip(p2[0], p2[1])], "t2": [[int(v) for v in t2[:, k]] for k in range(t2.shape[1])], "tol": frac(tol)}
+
+
 def impl_run(case):
+    if case["kind"] == "tri2d":
+        r = _run_tri(case)
+        out = {"kind": "tri2d"}
+        T = r["triples"]
+        out["triples"] = T if isinstance(T, dict) else [[i, j, frac(w)] for i, j, w in T]
+        for k in ("avg", "int", "none"):
+            out[k] = r[k] if isinstance(r[k], dict) else [[frac(x) for x in row] for row in r[k]]
+        return out
     if case["kind"] == "1d":
         r = _run_1d(case)
         out = {"kind": "1d"}
@@ -450,6 +531,14 @@ def impl_run(case):
 
 
 def model_ops(case):
+    if case["kind"] == "tri2d":
+        r = _run_tri(case)
+        tol = 1e-6 * r["area"]
+        ops = [_tri_op(*r["flat"], tol, "triples")]
+        if r["proj"] is not None:
+            p1, p2, t1, t2 = r["proj"]
+            ops.append(_tri_op(p1[:2], p2[:2], t1, t2, tol, "matrices"))
+        return ops
     if case["kind"] != "1d":
         return []
     ca, cb = _cells_param(case, "a"), _cells_param(case, "b")
@@ -457,6 +546,12 @@ def model_ops(case):
 
 
 def model_decode(outs, case):
+    if case["kind"] == "tri2d":
+        o = {"kind": "tri2d", "triples": outs[0].get("triples", outs[0])}
+        src = outs[1] if len(outs) > 1 else {}
+        for k in ("avg", "int", "none"):
+            o[k] = src.get(k)
+        return o
     if case["kind"] != "1d":
         return {"kind": case["kind"], "model": "none (oracle only)"}
     o = dict(outs[0])
@@ -464,7 +559,47 @@ def model_decode(outs, case):
     return o
 
 
+def _compare_tri(impl, model, case):
+    """2-D: the model computes over exact rationals what the code computes in binary64; overlaps of (numerically) zero area
+    may or may not pass the `area > 0` filter, so reported pairs are compared above a threshold and weights with tolerance."""
+    if "harness_exc" in impl:
+        return "impl_run crashed: " + impl["harness_exc"]
+    area = float(case["Lx"] * case["Ly"])
+    ti, tm = impl["triples"], model["triples"]
+    if isinstance(ti, dict) or isinstance(tm, dict):
+        return None if ti == tm else f"triples: {ti} vs {tm}"
+    thr = 1e-10 * area
+    si = [(t[0], t[1]) for t in ti if float(F(t[2])) > thr]
+    sm = [(t[0], t[1]) for t in tm if float(F(t[2])) > thr]
+    if si != sm:
+        return f"triangulations: reported pairs (overlap > 1e-10 area) differ: impl-only {sorted(set(si) - set(sm))[:5]}, model-only {sorted(set(sm) - set(si))[:5]}"
+    di = {(t[0], t[1]): float(F(t[2])) for t in ti}
+    dm = {(t[0], t[1]): float(F(t[2])) for t in tm}
+    for k in set(di) | set(dm):
+        if abs(di.get(k, 0.0) - dm.get(k, 0.0)) > 1e-12 * area:
+            return f"triangulations: overlap of pair {k}: impl {di.get(k, 0.0)!r} vs model {dm.get(k, 0.0)!r}"
+    for k in ("avg", "int"):
+        if isinstance(impl[k], dict) or model[k] is None:
+            return f"match_2d({k}): impl {impl[k]} / model {model[k]}"
+        d = deep_compare(impl[k], model[k], "match_2d." + k, tol=1e-9)
+        if d:
+            return d
+    if isinstance(impl["none"], dict) or model["none"] is None:
+        return f"match_2d(None): impl {impl['none']} / model {model['none']}"
+    # unscaled: entries may differ only where the overlap is within rounding of the tolerance
+    Ni, Nm = np.array([[float(F(x)) for x in row] for row in impl["none"]]), np.array([[float(F(x)) for x in row] for row in model["none"]])
+    if Ni.shape != Nm.shape:
+        return f"match_2d(None): shape {Ni.shape} vs {Nm.shape}"
+    tol = 1e-6 * area
+    for i, j in zip(*np.nonzero(Ni != Nm)):
+        if abs(dm.get((int(i), int(j)), 0.0) - tol) > 1e-9 * area:
+            return f"match_2d(None): entry ({i},{j}) impl {Ni[i, j]} vs model {Nm[i, j]}"
+    return None
+
+
 def compare(impl, model, case):
+    if case["kind"] == "tri2d":
+        return _compare_tri(impl, model, case)
     if case["kind"] != "1d":
         return None
     if "harness_exc" in impl:
@@ -896,5 +1031,6 @@ def stats(cases, impl_outs):
         "1d_tol_equal_to_an_overlap": sum(1 for c in one if any(w == F(c["tol"]) and w > 0 for row in _overlaps_1d(c) for w in row)),
         "1d_negative_direction": sum(1 for c in one if _sigma(c) < 0),
         "1d_max_cells": max([max(len(c["a"]["cells"]), len(c["b"]["cells"])) for c in one] or [0]),
-        "2d_oracle_only": sum(v for k, v in kinds.items() if k != "1d"),
+        "tri2d_compared_with_model": kinds.get("tri2d", 0),
+        "oracle_only_surf_mortar": sum(v for k, v in kinds.items() if k not in ("1d", "tri2d")),
     }
